@@ -9,7 +9,8 @@ Alphabet == {DOT, APOS, BSL, MINUS_, 34, SPC, NLC, 97}
 Strings == StringsUpTo(Alphabet, MaxLen)
 VARIABLES d, slot, s
 vars == <<d, slot, s>>
-SlotNames == {"about", "after_help", "author", "version", "arg_help", "heading", "sub_about", "pv_help"}
+SlotNames == {"about", "after_help", "author", "version", "arg_help", "heading", "sub_about", "pv_help",
+              "ov_title", "ov_section", "ov_date", "ov_source", "ov_manual"}
 HasSlot(md, sl) ==
   CASE sl \in {"arg_help", "heading"} -> md.args # <<>>
     [] sl = "sub_about" -> md.subs # <<>>
@@ -24,6 +25,11 @@ Subst(md, sl, t) ==
     [] sl = "heading" -> [md EXCEPT !.args[1].heading = t]
     [] sl = "sub_about" -> [md EXCEPT !.subs[1].about = t]
     [] sl = "pv_help" -> [md EXCEPT !.args[1].pvs[1].help = t]
+    [] sl = "ov_title" -> [md EXCEPT !.ov_title = t]
+    [] sl = "ov_section" -> [md EXCEPT !.ov_section = t]
+    [] sl = "ov_date" -> [md EXCEPT !.ov_date = t]
+    [] sl = "ov_source" -> [md EXCEPT !.ov_source = t]
+    [] sl = "ov_manual" -> [md EXCEPT !.ov_manual = t]
 Init == d \in 1..Len(Defs) /\ slot \in SlotNames /\ HasSlot(Defs[d].md, slot) /\ s \in Strings
 Next == UNCHANGED vars
 Spec == Init /\ [][Next]_vars
